@@ -6,7 +6,7 @@ import os, sys, json, glob, shutil, subprocess, tempfile, time
 VERIF = '/verif'
 only = sys.argv[1:]
 rows = []
-for d in sorted(glob.glob(os.path.join(VERIF, 'seeded', 'C*-m*'))):
+for d in sorted(glob.glob(os.path.join(VERIF, 'seeded', 'C*-*'))):
     mid = os.path.basename(d)
     meta = json.load(open(os.path.join(d, 'meta.json')))
     prop = meta['breaks_property']
